@@ -13,8 +13,8 @@ ROOT = os.path.dirname(os.path.dirname(os.path.abspath(__file__)))
 
 OPS = [
     # ---- unit-vector producers
-    ("u_normalize", "u1", "r.v0.normalize()"), ("u_try_normalize", "u1", "r.v1.try_normalize().unwrap()"),
-    ("u_normalize_or_zero", "u0", "r.v0.normalize_or_zero()"), ("u_normalize_and_length", "u1", "r.v1.normalize_and_length().0"),
+    ("u_normalize", "u1", "nz(r.v0).normalize()"), ("u_try_normalize", "u1", "nz(r.v1).try_normalize().unwrap()"),
+    ("u_normalize_or_zero", "u0", "nz(r.v0).normalize_or_zero()"), ("u_normalize_and_length", "u1", "nz(r.v1).normalize_and_length().0"),
     ("u_any_orthonormal_vector", "u1", "r.u0.any_orthonormal_vector()"), ("u_any_orthonormal_pair_a", "u1", "r.u0.any_orthonormal_pair().0"),
     ("u_any_orthonormal_pair_b", "u0", "r.u1.any_orthonormal_pair().1"), ("u_rotate", "u1", "r.q0 * r.u0"), ("u_rotate_b", "u0", "r.q1 * r.u1"),
     ("u_rotate_a", "u1", "Vec3::from(r.q0 * Vec3A::from(r.u0))"), ("u_mat_col", "u1", "r.r0.y_axis"), ("u_mat_mul", "u0", "r.r0 * r.u1"),
@@ -25,7 +25,7 @@ OPS = [
     # ---- general vectors through precondition-carrying consumers
     ("v_rotate", "v1", "r.q0 * r.v0"), ("v_project_onto_normalized", "v1", "r.v0.project_onto_normalized(r.u0)"),
     ("v_reject_from_normalized", "v1", "r.v0.reject_from_normalized(r.u1) + r.v0"), ("v_reflect", "v0", "r.v0.reflect(r.u1)"),
-    ("v_clamp_length", "v1", "r.v1.clamp_length(r.p0, r.p0 + 1.0)"), ("v_clamp", "v0", "r.v0.clamp(Vec3::splat(-3.0), Vec3::splat(3.0)) + Vec3::splat(0.25)"),
+    ("v_clamp_length", "v1", "nz(r.v1).clamp_length(r.p0, r.p0 + 1.0)"), ("v_clamp", "v0", "r.v0.clamp(Vec3::splat(-3.0), Vec3::splat(3.0)) + Vec3::splat(0.25)"),
     ("v_transform_point", "v1", "r.m0.transform_point3(r.v0)"), ("v_transform_point_rigid", "v0", "r.m1.transform_point3(r.v1)"),
     ("v_affine_point", "v1", "r.a0.transform_point3(r.v0)"), ("v_scaled_axis", "v0", "r.q1.to_scaled_axis() + Vec3::splat(0.5)"),
     ("v_refract", "v1", "r.u0.refract(r.u1, 0.5) + r.v0"),
@@ -102,6 +102,11 @@ def main():
     rs = ["// GENERATED by tools/gen_c20.py -- do not edit", "#![allow(clippy::all)]", "use glam::*;", "",
           "#[derive(Clone, Copy, Debug)]",
           "pub struct Regs { pub v0: Vec3, pub v1: Vec3, pub u0: Vec3, pub u1: Vec3, pub q0: Quat, pub q1: Quat, pub r0: Mat3, pub m0: Mat4, pub m1: Mat4, pub a0: Affine3A, pub d0: DQuat, pub d1: DVec3, pub s0: f32, pub t0: f32, pub p0: f32 }",
+          "", "/// The class `vec` of the general registers is \"finite\", not \"non-zero\": glam itself produces exact zeros from",
+          "/// non-degenerate inputs (a view matrix maps its eye to the origin).  Normalising a zero vector is outside the domain of",
+          "/// normalize / try_normalize().unwrap() / clamp_length(min > 0), so the operations that normalise a general register",
+          "/// apply the caller's guard first, as a user must.",
+          "fn nz(v: Vec3) -> Vec3 { let l = v.length_squared(); if l > 1e-4 && l < 1e8 { v } else { Vec3::new(0.5, -0.25, 0.125) } }",
           "", "/// run one operation; returns false when the name is unknown", "pub fn step(op: &str, r: &mut Regs) -> bool {", "    match op {"]
     for op, dst, expr in OPS + VIOL:
         rs.append(f'        "{op}" => {{ let x = {expr}; r.{dst} = x; }}')
